@@ -378,6 +378,18 @@ def _r68(F, flat):
                    "relative path := helper(base.join(path)), stored back" if ok_base and ok_rel and stored else
                    "rewriter does not rewrite %s paths correctly (base: %s, only-if-relative: %s, stored: %s)" % (variant, ok_base, ok_rel, stored))
             continue
+        if arm is None:
+            # one path shared by several variants (`let tok = match expr { Include(d) => &mut d.path, Import(d) => &mut d.path, .. }`):
+            # what runs when the expression is this variant, every match on the expression taking this variant's edge
+            from .. import variants as _variants
+            has_arm = any(t_["k"] == "switch" and t_.get("enum") == EXPR and variant in [x.get("variant") for x in t_["targets"]]
+                          for t_ in (fn.term(b_) for b_ in range(len(fn.blocks)) if not fn.is_cleanup(b_)))
+            if has_arm:
+                blocks = _variants.reach_multi(F, fn, 0, {EXPR: variant}, scrutinee_ok=lambda e, pl, b_: True)
+                joins = [(x, tt) for x, tt in fn.calls() if x in blocks and callee(tt) == "std::path::Path::join"]
+                rel = [(x, tt) for x, tt in fn.calls() if x in blocks and callee(tt) == "std::path::Path::is_relative"]
+                if joins and rel:
+                    arm = (fn, blocks, joins, rel)
         need(arm, "rewriter has no join/is_relative for Expression::%s (neither in the arm nor in a helper it calls)" % variant)
         hf, blocks, joins, rel = arm
         homes[variant] = (hf, blocks)
@@ -454,6 +466,24 @@ def _r68(F, flat):
             labs = oc.at(t["args"][1], b)
             ok = "std::path::Path::parent" in calls_in(labs)
             r.inst("base:checker", cl.where(b), ok, "checker working dir = parent() of the loaded path" if ok else "checker working dir is not the file's parent directory")
+    # the checker of an imported file works in that file's own directory (its nested relative imports resolve there), not in the
+    # directory of whichever file imported it first - the derived shape is cached for the whole invocation
+    ri = F.fn("ucglib::ast::typecheck::Checker::resolve_import", flat=True)
+    need(ri is not None, "Checker::resolve_import not found")
+    wds = [(b, t) for b, t in ri.calls() if callee(t) == "ucglib::ast::typecheck::Checker::with_working_dir"]
+    need(wds, "resolve_import does not give the child checker a working directory")
+    for k_, (b, t) in enumerate(wds):
+        src = util.source_calls(ri, t["args"][1], pass_through=util.PASS_THROUGH + ("::to_path_buf", "::map", "::branch", "::unwrap_or", "::unwrap_or_else"))
+        names = {c_[0] for c_ in src if c_[0] != "param"}
+        # `parent().map(|p| p.to_path_buf())`: the closure is an argument of map, the receiver is what counts
+        ok = any(c_.endswith("Path::parent") for c_ in names)
+        own = [c_ for c_ in src if c_[0] == "param"]
+        labs = Origins(ri).at(t["args"][1], b)
+        from_self = "working_dir" in {l[1] for l in labs if l[0] == "field"} and not ok
+        r.inst("base:child-checker#%d" % k_, ri.where(b), ok and not from_self,
+               "the child checker's working dir = parent() of the imported file" if ok and not from_self else
+               "the checker of an imported file inherits the importer's working directory: its nested relative imports resolve against "
+               "whichever file reached it first, and the shape cached for it depends on the order of the batch")
     tr = F.fn("ucglib::build::opcode::translate::AST::translate")
     ot = Origins(tr)
     for b, t in tr.calls():
